@@ -256,3 +256,18 @@ Proof.
   destruct H as (_ & H2). rewrite H2, nbd_collect_exact. reflexivity.
 Qed.
 Print Assumptions C14_answer_exact.
+
+(* The bound on max_nodes_response in C14_packet_fits_config cannot be dropped altogether - end to
+   end, on a table built by insert_or_update: configured maximum 1280, 16 nodes in each of the
+   buckets 177..256, records of 235 bytes (< 300), a request id of 8 bytes, FINDNODE for these 80
+   distances: the answer has 256 packets, "total" needs three RLP bytes, and EVERY packet is 1281
+   bytes on the wire.  Configuration corner (the default maximum is 16); the clause "each encodes to
+   at most 1280 bytes" is false of the code for such a configuration. *)
+Theorem C14_packet_over_1280_with_large_maximum_refuted :
+  exists c t lv requester id ds maxn rsize now,
+    (forall v, rsize v <= MAX_ENR_SIZE) /\ (length id <= 8)%nat /\ maxn = 1280%nat /\
+    length (snd (serve_findnode c t lv requester id ds maxn rsize now)) = 256%nat /\
+    forall p, In p (snd (serve_findnode c t lv requester id ds maxn rsize now)) ->
+      wire_size (nodes_msg_size rsize p) = MAX_PACKET_SIZE + 1.
+Proof. exact packet_over_1280_with_large_maximum. Qed.
+Print Assumptions C14_packet_over_1280_with_large_maximum_refuted.
